@@ -1,0 +1,45 @@
+//go:build verif
+
+package keyban
+
+// Key banning (property C14): a ban request must come with the master secret of the same contract as the target
+// key; the ban list changes exactly when the request asks for a state the list is not already in; the request is
+// acknowledged only after the change was applied.
+
+import (
+	"github.com/emitter-io/emitter/internal/errors"
+	"github.com/emitter-io/emitter/internal/security"
+	"github.com/emitter-io/emitter/internal/service"
+	vs "github.com/emitter-io/emitter/internal/verifspec"
+)
+
+//@ assume (github.com/emitter-io/emitter/internal/service.Decryptor).DecryptKey iface post=post_DecryptKey
+func post_DecryptKey(res0 security.Key, res1 error) bool { return res1 != nil || len(res0) == 24 }
+
+//@ verify (*Service).OnRequest pre=pre_OnRequest post=post_OnRequest_auth,post_OnRequest_notify props=C14
+func pre_OnRequest(s *Service, c service.Conn) bool { return s != nil && s.keygen != nil && s.cluster != nil }
+func post_OnRequest_auth(s *Service, res0 service.Response, res1 bool) bool {
+	// acknowledged only with a decryptable master secret and a decryptable target of the same contract;
+	// a refused request notifies nobody
+	if !res1 {
+		return vs.TraceCount("Notify") == 0
+	}
+	d0, d1 := vs.TraceFindNth("DecryptKey", 0), vs.TraceFindNth("DecryptKey", 1)
+	sec, tgt := vs.TraceRet[security.Key](d0, 0), vs.TraceRet[security.Key](d1, 0)
+	return d0 >= 0 && d1 >= 0 && vs.TraceRet[error](d0, 1) == nil && vs.TraceRet[error](d1, 1) == nil &&
+		len(sec) == 24 && len(tgt) == 24 && sec[15] == security.AllowMaster &&
+		sec[4] == tgt[4] && sec[5] == tgt[5] && sec[6] == tgt[6] && sec[7] == tgt[7]
+}
+func post_OnRequest_notify(s *Service, res0 service.Response, res1 bool) bool {
+	// at most one Notify, preceded by the Contains that justified it, and of the opposite state
+	if !res1 {
+		return true
+	}
+	c, n := vs.TraceFind("Contains"), vs.TraceFind("Notify")
+	if n < 0 {
+		return vs.TraceCount("Notify") == 0
+	}
+	return vs.TraceCount("Notify") == 1 && c >= 0 && c < n && vs.TraceArg[bool](n, 2) == !vs.TraceRet[bool](c, 0)
+}
+
+var _ = errors.ErrBadRequest
